@@ -231,6 +231,9 @@ func (g *Gateway) handleLegacyProtocol(w http.ResponseWriter, r *http.Request, t
 			RegisterTunnel(t, handler)
 			defer RemoveTunnel(t)
 			defer t.Close()
+			// the tunnel is over when the packet loop ends: a later connection with the
+			// same connection id starts from scratch instead of inheriting its state
+			defer c.Delete(t.RDGId)
 			handler.Process(r.Context())
 		}
 	}
